@@ -6,8 +6,6 @@ use crate::engine::*;
 use crate::gen::*;
 use crate::known::known_or_fail;
 use crate::nat::{n, Nat};
-use cosmwasm_std::Uint128;
-use haloswap::formulas::compute_swap;
 use serde_json::{json, Value};
 
 #[derive(Clone, Debug)]
@@ -145,7 +143,7 @@ pub fn gen_case(s: &mut Src) -> SwapCase {
 
 pub fn call(x: u128, y: u128, a: u128, c: u128) -> Result<(u128, u128, u128), String> {
     let rate = to_dec(&n(c));
-    guarded(|| compute_swap(Uint128::new(x), Uint128::new(y), Uint128::new(a), rate)).map(|(r, s, c)| (r.u128(), s.u128(), c.u128()))
+    guarded(|| crate::direct::compute_swap(x, y, a, rate))
 }
 
 /// KF-SWAP-ROUNDUP root-cause signature (DESIGN.md C01, F3)
